@@ -190,6 +190,14 @@ func outOfRange(tkind types.BasicKind, cval constant.Value) bool {
 	if cval == nil {
 		return false
 	}
+	if cval.Kind() == constant.Complex {
+		// constant.Compare panics on ordered comparison of complex values: a complex constant
+		// fits an integer type only if its imaginary part is zero and its real part is in range
+		if constant.Sign(constant.Imag(cval)) != 0 {
+			return true
+		}
+		cval = constant.Real(cval)
+	}
 	rg := tkindRanges[tkind]
 	return constant.Compare(cval, token.LSS, rg[0]) || constant.Compare(cval, token.GTR, rg[1])
 }
